@@ -594,6 +594,9 @@ class Gen:
                     if pe.name != "_":
                         self.declare(ctx, m, t[1])
             out = [A.Declare(pat, A.Var(n))]
+            if r.random() < 0.3:
+                self.feat("destructure_assign")
+                out.append(A.Assign(A.clone(pat), A.Var(n)))
             for pe, _ in items:
                 if pe.name != "_" and kind(ctx.visible().get(pe.name, INT)) != "fn":
                     out.append(A.pr(A.Var(pe.name)))
@@ -625,6 +628,9 @@ class Gen:
         for m, ft in out_names:
             self.declare(ctx, m, ft)
         out = [A.Declare(A.ObjectE(props), A.Var(n))]
+        if r.random() < 0.4:
+            self.feat("destructure_assign")
+            out.append(A.Assign(A.clone(A.ObjectE(props)), A.Var(n)))
         for m, ft in out_names:
             if kind(ft) != "fn":
                 out.append(A.pr(A.Var(m)))
@@ -702,6 +708,11 @@ class Gen:
                 A.pr(A.Call(A.Prop(V(o2), "get", False), [(A.Int(20), False)])),
                 A.Declare(V(g), A.Index(V(o2), A.Str("get"))),
                 A.pr(A.call(g, self.expr(INT, ctx, 2))),
+                A.Assign(V(g), A.Prop(V(o1), "get", False)),
+                A.pr(A.call(g, A.Int(3))),
+                A.Declare(V(g + "s"), A.lst(A.Prop(V(o1), "get", False))),
+                A.Assign(A.Index(V(g + "s"), A.Int(0)), A.Index(V(o2), A.Str("get"))),
+                A.pr(A.Call(A.Index(V(g + "s"), A.Int(0)), [(A.Int(4), False)])),
             ]
         if k == 3:      # rest parameter and spread arguments
             self.feat("rest_spread")
